@@ -104,6 +104,52 @@ def rows_family(run, rng, n):
     return len(progs)
 
 
+def fresh_family(run, rng, n):
+    """Implementation only: +array, array + array, array - array, select-range, apply and select-filter return FRESH arrays - also when an
+    operand is empty, when nothing is removed, when the range is the whole array.  The result is taken, then every operand is changed in
+    place (and in a second variant the result is changed): the other side still prints what it printed before."""
+    hops = V.build_harness("h_ops", "plain")
+    progs = []
+    lit = lambda xs: "[" + ",".join(str(x) for x in xs) + "]"
+    for _ in range(n):
+        a = [rng.randint(0, 9) for _ in range(rng.choice([0, 1, 2, 3, 4]))]
+        b = [rng.randint(0, 9) for _ in range(rng.choice([0, 0, 1, 2]))]
+        k = rng.randrange(8)
+        if k == 0: make, uses_b = "a + b", True
+        elif k == 1: make, uses_b = "b + a", True
+        elif k == 2: make, uses_b = "+a", False
+        elif k == 3: make, uses_b = "a - b", True
+        elif k == 4: make, uses_b = "a select [0, %d]" % rng.choice([len(a), len(a) + 2, max(len(a) - 1, 0)]), False
+        elif k == 5: make, uses_b = "a apply {_x}", False
+        elif k == 6: make, uses_b = "a select {true}", False
+        else: make, uses_b = "a + []", False
+        change = lambda v: rng.choice(["%s pushBack 77;", "%s set [0, 66];", "reverse %s; %s pushBack 55;", "%s resize 1; %s pushBack 44;", "%s deleteAt 0; %s pushBack 33;"]).replace("%s", v)
+        if rng.random() < 0.5:   # operands change afterwards: the result must not
+            body = "d = %s; before = str d; %s %s after = str d;" % (make, change("a"), change("b") if uses_b else "")
+            what = "result"
+        else:                    # the result changes afterwards: the operands must not
+            body = "d = %s; before = str [a, b]; %s after = str [a, b];" % (make, change("d"))
+            what = "operands"
+        progs.append(("a = %s; b = %s; %s [before, after]" % (lit(a), lit(b), body), make, what))
+    rc, out, err = V.run_lines_parallel([hops], ["X\t-\t%s" % V.hx(p_[0]) for p_ in progs], timeout=3000)
+    for (p_, make, what), o in zip(progs, out):
+        f = o.split(";")
+        rep = {"kind": "fresh-results", "sqf": p_, "impl": o[:600]}
+        if len(f) != 3 or f[2] == "NONE" or f[0] != "-1":
+            run.violation("a small array program could not be run and printed: " + o[:120], rep)
+            continue
+        val = V.unhx(f[2]).decode("latin-1")
+        parts = split_top(val)
+        if parts is None or len(parts) != 2:
+            run.violation("unexpected result shape: " + val[:120], rep)
+            continue
+        if parts[0] != parts[1]:
+            rep.update(before=parts[0], after=parts[1])
+            run.violation("`%s` did not return a fresh array: changing the %s in place afterwards changed the %s too (%s -> %s)"
+                          % (make, "operands" if what == "result" else "result", what, parts[0][:60], parts[1][:60]), rep)
+    return len(progs)
+
+
 def main(replay=None):
     run = V.Run(PID, "proof")
     rng = run.rng
@@ -208,6 +254,7 @@ def main(replay=None):
 
     n_rows = rows_family(run, rng, 1200 if thorough else 160)
     kinds["rows-keep-identity"] = n_rows
+    kinds["fresh-results"] = fresh_family(run, rng, 1500 if thorough else 200)
 
     for p in problems:
         run.violation("proof obligation not discharged: " + p, {"broken": p, "theorems": run.cov["theorems"]}, found_input=False)
